@@ -69,6 +69,12 @@ def tasks(tier, seed):
     T.append(('space', 8, 4, 4, True, False, 2, 'mesh'))
     # different sizes per dimension (the order of the Kronecker factors matters only here)
     T.append(('space', (15, 7), (7, 3), 2, False, True, 2, 'mesh'))
+    # problems with several components (ncomp): component index first / last
+    T.append(('ncomp', 8, 4, 2, True, 2, 'first', 'mesh'))
+    T.append(('ncomp', 8, 4, 4, True, 2, 'last', 'mesh'))
+    T.append(('ncomp', 8, 4, 2, True, 2, 'first', 'imex_mesh'))
+    T.append(('ncomp', 7, 3, 2, False, 1, 'first', 'mesh'))
+    T.append(('ncomp', 7, 3, 2, False, 2, 'last', 'imex_mesh'))
     T.append(('space', (7, 15), (3, 7), 2, False, True, 2, 'imex_mesh'))
     T.append(('space', (15, 7), (7, 3), 4, False, True, 2, 'mesh'))
     if not quick:
@@ -112,6 +118,8 @@ def run_task(rep, task):
         fft_transfer_case(rep, *task[1:])
     elif task[0] == 'nocoarse':
         nocoarse_case(rep)
+    elif task[0] == 'ncomp':
+        ncomp_case(rep, *task[1:])
 
 
 def box(vs):
@@ -636,10 +644,91 @@ def nocoarse_case(rep):
             rep.side(f'nocoarse/{cls.__name__}/{op.__name__}', same and type(F) is cls and F is not G)
 
 
+def _ncomp_transfers(nf, nc, order, periodic, dim, layout, dtype):
+    """the real transfer object for a problem with two components (component index first or last) and the one for the scalar problem on the same grids"""
+    par = {'periodic': periodic, 'equidist_nested': True, 'iorder': order, 'rorder': order}
+    fp, cp = GridProb(nf, periodic, dim, dtype), GridProb(nc, periodic, dim, dtype)
+    T0 = mesh_to_mesh(fp, cp, par)
+    fpN, cpN = GridProb(nf, periodic, dim, dtype), GridProb(nc, periodic, dim, dtype)
+    for p_, n_ in ((fpN, nf), (cpN, nc)):
+        p_.ncomp = 2
+        shape = (n_,) * dim
+        p_.init = (((2,) + shape) if layout == 'first' else (shape + (2,)), None, dtype)
+    TN = mesh_to_mesh(fpN, cpN, par)
+    return T0, TN, fp, cp, fpN, cpN
+
+
+def _ncomp_apply(T0, TN, fp, cp, fpN, cpN, layout, dtype_name, op, vals, wrap):
+    """(multi-component result per component and part, scalar results per component and part) of prolongation / restriction of the data vals[part][comp][j]"""
+    cls = mesh if dtype_name == 'mesh' else imex_mesh
+    parts = 1 if dtype_name == 'mesh' else 2
+    src, srcN = (cp, cpN) if op == 'prolong' else (fp, fpN)
+    sel = (lambda A, c: A[c, ...]) if layout == 'first' else (lambda A, c: A[..., c])
+    X = cls(srcN.init)
+    for q in range(parts):
+        Xq = X if parts == 1 else X[q]
+        for c in range(2):
+            sel(Xq, c)[...] = np.array([wrap(v) for v in vals[q][c]], dtype=object if wrap is not float else float).reshape(sel(Xq, c).shape)
+    Y = TN.prolong(X) if op == 'prolong' else TN.restrict(X)
+    multi, single = [], []
+    for q in range(parts):
+        Yq = Y if parts == 1 else Y[q]
+        for c in range(2):
+            multi.append(list(np.asarray(sel(np.asarray(Yq), c)).ravel()))
+            xs = mesh(src.init)
+            xs[...] = np.array([wrap(v) for v in vals[q][c]], dtype=object if wrap is not float else float).reshape(xs.shape)
+            ys = T0.prolong(xs) if op == 'prolong' else T0.restrict(xs)
+            single.append(list(np.asarray(ys).ravel()))
+    return Y, multi, single
+
+
+def ncomp_case(rep, nf, nc, order, periodic, dim, layout, dtype_name):
+    """problems with several components (attribute ncomp; component index first, as the Brusselator stores them, or last): the real transfer acts on every
+    component exactly as the transfer of the scalar problem does (which the 'space' cases pin to the Lagrange weights), and keeps type and shape"""
+    name = f'ncomp/{nf}-{nc}/o{order}/{"periodic" if periodic else "dirichlet"}/dim{dim}/component-{layout}/{dtype_name}'
+    T0, TN, fp, cp, fpN, cpN = _ncomp_transfers(nf, nc, order, periodic, dim, layout, np.dtype('O'))
+    for T in (T0, TN):
+        T.Pspace, T.Rspace = sp.DenseDot(np.asarray(T.Pspace.todense(), dtype=float)), sp.DenseDot(np.asarray(T.Rspace.todense(), dtype=float))
+    parts = 1 if dtype_name == 'mesh' else 2
+    tol = rv(Fraction(1, 10**12))
+    for op, n_ in (('prolong', nc), ('restrict', nf)):
+        N = n_**dim
+        vs = [[[z3.Real(f'v{q}_{c}_{j}') for j in range(N)] for c in range(2)] for q in range(parts)]
+        Y, multi, single = _ncomp_apply(T0, TN, fp, cp, fpN, cpN, layout, dtype_name, op, vs, SymReal)
+        dst = fpN if op == 'prolong' else cpN
+        rep.side(f'{name}:{op}-preserves-type-and-shape', type(Y).__name__ == dtype_name and tuple(Y.shape) == ((2,) if parts == 2 else ()) + tuple(dst.init[0]))
+        goal = []
+        for a, b in zip(multi, single):
+            for x, y in zip(a, b):
+                goal += [R(x) - R(y) <= tol, R(y) - R(x) <= tol]
+        allv = [v for q in vs for c in q for v in c]
+        res, m = prove(z3.And(goal), box(allv), timeout_ms=120000, name=f'{name}:{op}-acts-per-component')
+        rep.ob(f'{name}:{op}-acts-per-component', res)
+        if res == 'sat':
+            rep.replayed += 1
+            vals = [[[float(model_value(m, v)) for v in c] for c in q] for q in vs]
+            dev = ncomp_float(nf, nc, order, periodic, dim, layout, dtype_name, op, vals)
+            if dev > 1e-10:
+                rep.violation(f'{PID}/component-structure/{op}/component-{layout}', f'{name}: {op} of a two-component field differs from the {op} of its components by {dev:.3e} on the real float classes',
+                              {'task': ['ncomp', nf, nc, order, periodic, dim, layout, dtype_name], 'op': op, 'values': vals})
+            else:
+                rep.unreproduced(f'{name}:{op}', {'values': vals, 'dev': dev})
+
+
+def ncomp_float(nf, nc, order, periodic, dim, layout, dtype_name, op, vals):
+    T0, TN, fp, cp, fpN, cpN = _ncomp_transfers(nf, nc, order, periodic, dim, layout, np.dtype('float64'))
+    _, multi, single = _ncomp_apply(T0, TN, fp, cp, fpN, cpN, layout, dtype_name, op, vals, float)
+    return max(float(np.abs(np.array(a, dtype=float) - np.array(b, dtype=float)).max()) for a, b in zip(multi, single))
+
+
 def replay(path):
     d = json.load(open(path))['replay']
     t = d['task']
-    if t[0] == 'space':
+    if t[0] == 'ncomp':
+        dev = ncomp_float(*t[1:], d['op'], d['values'])
+        print(d['op'], 'of the two-component field vs. of its components: deviation', dev)
+        bad = dev > 1e-10
+    elif t[0] == 'space':
         fp, cp = GridProb(t[1], t[4], t[6], np.dtype('float64')), GridProb(t[2], t[4], t[6], np.dtype('float64'))
         T = mesh_to_mesh(fp, cp, {'periodic': t[4], 'equidist_nested': t[5], 'iorder': t[3], 'rorder': t[3]})
         row = np.asarray(T.Pspace.todense())[d['row']]
